@@ -545,10 +545,28 @@ def check_MPI_equality(obj, comm, hash=False):
         raise RuntimeError("MPI tasks are not in sync")
 
 
+def _pickle_canonical(obj):
+    """Replace fields by (domain, dtype, shape, raw bytes) before pickling.
+
+    `pickle` memoizes shared sub-objects (e.g. dtypes) by identity. Therefore
+    the pickle of a field that has itself been transmitted by pickling (e.g.
+    via `comm.bcast`) differs from the pickle of an equal, locally created
+    field, and comparing raw pickles would report equal fields as different.
+    """
+    from .field import Field
+    from .multi_field import MultiField
+    if isinstance(obj, MultiField):
+        return ("MultiField", tuple((kk, _pickle_canonical(vv)) for kk, vv in obj.items()))
+    if isinstance(obj, Field):
+        arr = np.ascontiguousarray(obj.asnumpy())
+        return ("Field", repr(obj.domain), arr.dtype.str, arr.shape, arr.tobytes())
+    return obj
+
+
 def _MPI_unique(obj, comm, hash=False):
     from hashlib import blake2b
 
-    obj = pickle.dumps(obj)
+    obj = pickle.dumps(_pickle_canonical(obj))
     obj = blake2b(obj).hexdigest() if hash else obj
     return len(set(comm.allgather(obj))) == 1
 
